@@ -20,7 +20,7 @@ EXPLANATION = (
     "(renaming, wrapping into a function; shared with C08); (R5) implicit component names are injective over (module, "
     "node, instantiation) (moving declarations into a module; shared with C09). The equality of documents over program "
     "pairs and rewrite sequences is not decidable by this family and is not claimed.")
-EXPLANATION += " Further clauses: (R6) JOIN-AGREE (shared C10.R5); (R7) VAR-UNIFORM - the eleven kind predicates treat an unresolved tag alike, so that applying a function in its own module or only in an importer cannot change the verdict. R1 also requires eval_binding to return the argument's annotations extended by those of the occurrence. R3 also requires that productions use token positions for error spans only; (R8) ROOTS - evaluation is driven by the resources alone."
+EXPLANATION += " Further clauses: (R6) JOIN-AGREE (shared C10.R5); (R7) VAR-UNIFORM - the eleven kind predicates treat an unresolved tag alike, so that applying a function in its own module or only in an importer cannot change the verdict. R1 also requires eval_binding to return the argument's annotations extended by those of the occurrence. R3 also requires that productions use token positions for error spans only; (R8) ROOTS - evaluation is driven by the resources alone. (R9) LATE-ANNOTATION - annotation keys are read where the value is finally consumed (five known findings)."
 TECHNIQUE = "static analysis: def-use transparency rules on MIR, who-may-call, predicate evaluation by abstract interpretation, shared scope/naming rules"
 
 TRIVIA_EXPECTED = {'Space', 'CommentLine', 'CommentBlock'}   # frozen: the three token kinds whose patterns are whitespace / comments
@@ -244,6 +244,38 @@ def r8_roots(c, facts, rule='C05.R8'):
         c.ok(R, {'eval': 'only Program::resources is enumerated'})
 
 
+def r9_late_annotations(c, facts, rule='C05.R9'):
+    """An evaluated value travels as (expr, annotations): bindings, applications, declarations and parentheses merge
+    annotations on the way and the casts read them at the end.  A key that an eval_* function reads from its own `ann`
+    while it builds the value is bound too early: the same annotation arriving later - because the expression was
+    wrapped in a function - is ignored."""
+    R = c.rule(rule, 'LATE-ANNOTATION: annotation keys are read where the value is finally consumed (cast_*), not while it is evaluated')
+    early = {}
+    n = 0
+    for fn in sorted(facts.fns.values(), key=lambda f: f.qname):
+        if not fn.mir or not fn.qname.startswith('oal_compiler::eval::'):
+            continue
+        home = facts.home(fn).qname
+        short = home.split('::')[-1]
+        for b, t in fn.calls():
+            info = callee_of(t)
+            if not info or 'annotation::Annotation::get_' not in P.strip(info['def']):
+                continue
+            n += 1
+            if short.startswith('cast_'):
+                continue
+            key = None
+            for a in t['args'][1:]:
+                if a.get('o') == 'const':
+                    key = str(a.get('val') or a.get('d'))
+            early.setdefault(short, set()).add(key)
+    c.floor(R, 'annotation key reads in the evaluator', n, 20)
+    for short, keys in sorted(early.items()):
+        c.bad(R, 'early-annotation:%s' % short, '%s reads annotation keys while it evaluates: the same annotation merged later (the expression wrapped in `let f v = v; f (..)`) is dropped' % short, fn=short)
+    if not early:
+        c.ok(R, {'eval': 'annotations are read by the casts only'})
+
+
 def r7_var_uniform(c, facts, rule='C05.R7'):
     """all kind predicates treat an unresolved tag alike, so that where a function is defined or applied cannot change the verdict"""
     import kinds as K
@@ -279,6 +311,7 @@ def run(c, facts):
     import c10
     c.run(r7_var_uniform, facts)
     c.run(r8_roots, facts)
+    c.run(r9_late_annotations, facts)
     R6 = c.rule('C05.R6', 'JOIN-AGREE: a declaration moved into a module is found again: an import binds to the module that was loaded for it (shared with C10.R5)')
     c.shared(R6, c10.r5_join_agree, 'C10.R5', facts)
     c.run(r1_transparent, facts)
